@@ -89,7 +89,8 @@ pub open spec fn scope_txt(ls: Seq<Seq<char>>, d: int) -> Option<FixtureScope> {
 
 pub open spec fn def_lit() -> Seq<char> { "def "@ }
 pub open spec fn async_lit() -> Seq<char> { "async def "@ }
-pub open spec fn test_lit() -> Seq<char> { "test_"@ }
+/// the default `python_functions` prefix of pytest: a function whose name starts with `test` is collected (F-03f repaired)
+pub open spec fn test_lit() -> Seq<char> { "test"@ }
 /// `str::lines` drops the empty line after a final '\n'; the function puts it back
 pub open spec fn lines_ext(c: Seq<char>) -> Seq<Seq<char>> {
     if occurs_at(c, PatV::Ch('\n'), c.len() - 1) { lines_v(c).push(Seq::empty()) } else { lines_v(c) }
@@ -403,7 +404,7 @@ proof fn lemma_def_scan_range(ls: Seq<Seq<char>>, i: int, limit: int)
     if 0 <= i < ls.len() && !is_def_line(ls[i]) && !(i == 0 || i <= limit) { lemma_def_scan_range(ls, i - 1, limit); }
 }
 /// C18 (only when): a function context from the text fallback always names a `def` / `async def` line at most 50 lines above
-/// the cursor (and not below it), whose name is non-empty and starts with `test_` or which has a fixture decorator above;
+/// the cursor (and not below it), whose name is non-empty and starts with `test` (pytest's default python_functions prefix) or which has a fixture decorator above;
 /// it is always a SIGNATURE context (the fallback never answers FunctionBody)
 //@tags C18
 pub proof fn lemma_C18_text_ctx_only_for_tests_and_fixtures(c: Seq<char>, tl: usize)
@@ -425,6 +426,18 @@ pub proof fn lemma_C18_text_ctx_only_for_tests_and_fixtures(c: Seq<char>, tl: us
         let cur = tl - 1;
         lemma_def_scan_range(ls, cur, sat_sub(cur, 50));
     }
+}
+/// C03 / C18 (which functions are tests): the text fallback applies pytest's default `python_functions` prefix `test`, with
+/// no underscore required: `testlogin` and the bare name `test` count as tests, `test_login` still does
+//@tags C03 C18
+pub proof fn lemma_C18_test_prefix_without_underscore()
+    ensures starts("testlogin"@, test_lit()), starts("test"@, test_lit()), starts("test_login"@, test_lit()),
+        test_lit().len() == 4,
+{
+    reveal_strlit("test"); reveal_strlit("testlogin"); reveal_strlit("test_login");
+    assert("testlogin"@.subrange(0, 4) =~= "test"@);
+    assert("test"@.subrange(0, 4) =~= "test"@);
+    assert("test_login"@.subrange(0, 4) =~= "test"@);
 }
 /// C18 FINDING (the "when" direction fails in documents that do not parse): once the signature's parentheses are closed on an
 /// earlier line and the cursor line leaves no parenthesis open, the text fallback answers None - no fixture completion in
@@ -501,6 +514,12 @@ proof fn canary_any_decorator_is_fixture(ls: Seq<Seq<char>>, d: int)
     requires 1 <= d <= ls.len(), occurs_at(trim_v(ls[d - 1]), PatV::Ch('@'), 0),
     ensures op_has_deco(ls, d),
 { }
+/// a name that merely contains `test`, or a proper prefix of it, is a test name
+proof fn canary_tes_or_atest_is_test()
+    ensures starts("tes"@, test_lit()) || starts("atest"@, test_lit()),
+{
+    reveal_strlit("test"); reveal_strlit("tes"); reveal_strlit("atest");
+}
 /// the assumed specifications (incl. split / chars) are not contradictory
 fn canary_false_from_assumed_specs2(a: &str, n: usize)
     ensures false,
